@@ -27,7 +27,7 @@ for pid in all_ids:
 m = {
     "version": 1,
     "setup_cmd": "./check --setup",
-    "hooks": {"guard": "verif", "enable": "go build -tags verif (harness/cmd/conndrive builds /repo with -tags verif)",
+    "hooks": {"guard": "verif", "enable": "no hooks are compiled into /repo: the harness passes -tags verif but no file of /repo is guarded by it (DESIGN.md section 0)",
               "baseline_off_cmd": "cd /repo && GOFLAGS=-mod=mod GOPROXY=off GOSUMDB=off go test -vet=off -count=1 -timeout 25m ./...",
               "source_commits": hooks_commits, "add_only": True},
     "engines": [{"name": "lean4-proof+correspondence", "path": "/verif/check",
